@@ -219,7 +219,7 @@ def run_check(
         print("INCONCLUSIVE property=%s condition did not exhaust within its budget: %s" % (prop, n), file=sys.stderr)
 
     wall = time.perf_counter() - t0
-    if write_evidence:
+    if write_evidence and not os.environ.get("VERIF_NOEVIDENCE"):
         ev = build_evidence(prop, tier, seed, conds, results, wall, len(violations), nreplays, extra, lemma_results,
                             sorted(known_seen))
         validate_and_write(prop, ev)
